@@ -202,6 +202,55 @@ def run(ctx, warn=False):
     res.rule("I19-STEP" + ("/warnings-as-errors" if warn else ""), n)
     if warn:
         return
+    # ---- copy.deepcopy of a universe (object protocol, a class's own __deepcopy__ honoured): the copy and its law set point at each
+    # other, the originals still do, and a later assignment on the copy leaves the originals alone
+    from rules import c10 as _c10
+    for later in (None, "copy.laws = L2", "copy.laws = None"):
+        try:
+            h.reset()
+            u0 = h.new("Universe", "u0")
+            l0 = u0.fields.get(h.actual.get("laws", "_laws")) if hasattr(h, "actual") else u0.fields.get("_laws")
+            if not isinstance(l0, Obj):
+                l0 = h.new(h.fn(LAWS), "L0")
+                if h.setattr(u0, "laws", l0).kind != "return":
+                    raise Unknown("u0.laws = L0 raises")
+            l0.name = "L0"
+            l2 = h.new(h.fn(LAWS), "L2")
+            h.settle()
+            (u1,) = _c10.copy_by_object_protocol(h, [u0], deepcopy_hooks=True)
+            u1.name = "u1"
+            if later == "copy.laws = L2":
+                r = h.setattr(u1, "laws", l2)
+            elif later == "copy.laws = None":
+                r = h.setattr(u1, "laws", None)
+            else:
+                r = None
+            if r is not None and r.kind != "return":
+                raise Unknown(f"{later} raises {r.excname}")
+            bad = []
+            objs = {"u0": u0, "u1": u1}
+            for nm, u_ in objs.items():
+                lw = h.getattr(u_, "laws")
+                if lw.kind != "return":
+                    bad.append(f"{nm}.laws raises {lw.excname}")
+                    continue
+                if isinstance(lw.value, Obj):
+                    back = h.getattr(lw.value, "applies_to")
+                    if not (back.kind == "return" and back.value is u_):
+                        bad.append(f"{nm}.laws is {lw.value.name} but {lw.value.name}.applies_to is {getattr(back.value, 'name', back.value) if back.kind == 'return' else back!r}")
+            back0 = h.getattr(l0, "applies_to")
+            if not (back0.kind == "return" and back0.value is u0) or h.getattr(u0, "laws").value is not l0:
+                bad.append(f"the original binding u0 <-> L0 is disturbed: u0.laws is {getattr(h.getattr(u0, 'laws').value, 'name', None)}, L0.applies_to is {getattr(back0.value, 'name', back0.value) if back0.kind == 'return' else back0!r}")
+        except Unknown as u:
+            res.ob(False)
+            res.undecide(f"deepcopy of a universe ({later}): {u}")
+            continue
+        res.ob(not bad, sig=("deepcopy", later))
+        if bad:
+            res.violation("I19-STEP", UNI + ".laws[set]" if later else LAWS, "copy.deepcopy-of-a-universe" + (",then-assignment-on-the-copy" if later else ""),
+                          f"u1 = copy.deepcopy(u0) where u0.laws is L0{'; ' + later.replace('copy', 'u1') if later else ''}: " + "; ".join(bad[:3]),
+                          replay="import copy\nfrom edgegraph.structure import *\nu0 = Universe(); L0 = u0.laws\nu1 = copy.deepcopy(u0)\nprint(u1.laws is not L0, u1.laws.applies_to is u1, L0.applies_to is u0)\nu1.laws = UniverseLaws()\nprint(u0.laws is L0, L0.applies_to is u0)")
+    res.rule("I19-DEEPCOPY", 3)
     readonly(ctx, h, res)
     common.vacuity(res, "I19-STEP", 150)
     res.analysed = common.analysed(ctx, [UNI + ".__init__", LAWS + ".__init__"])
